@@ -23,7 +23,7 @@ func init() {
 			"(4) areStaticFieldsDrifted returns drift only when all four annotations exist, versions are equal and the hashes differ; areRequirementsDrifted tests the NodeClaim's labels against the NodePool's template requirements; " +
 			"(5) PopulateNodeClaimDetails lets NodeClaim labels win over provider labels.",
 		NotCovered: []string{"hash sensitivity to every remaining template field value (hashstructure internals)", "end-to-end 'a freshly launched NodeClaim is not requirement-drifted' (needs label values chosen by the provider)"},
-		Rules: c15Rules,
+		Rules:      c15Rules,
 	})
 }
 
